@@ -28,6 +28,7 @@ def plan(tier, seed):
            for c in gen.NAMED]
   specs += [{'shard': 'ossl-' + c, 'curve': c, 'n': 600 if q else 4000}
             for c in gen.NAMED]
+  specs += [{'shard': 'cross-%d' % i, 'n': 60 if q else 600} for i in range(2)]
   specs.append({'shard': 'conv', 'n': 2000 if q else 40000})
   return specs
 
@@ -95,6 +96,44 @@ def run_model(ctx, spec):
     _relation(ctx, curve, sig, d, k, 'model signer')
   try:
     ctx.sample({'curve': curve, 'd': d, 'k': k, 'hash_len': hl})
+  except NameError:
+    pass
+
+
+def run_cross(ctx, spec):
+  """The same digest signed on several curves inside one process, in varying
+  curve orders, directly and through a check on a mixed batch (state kept
+  between calls must not leak from one curve to the next)."""
+  from paranoid_crypto.lib import ecdsa_sig_checks as sc
+  rng = ctx.rng('cross')
+  msb = sc.CheckNonceMSB()
+  for i in range(spec['n']):
+    if not ctx.want('x%d' % i):
+      continue
+    h = rng.bytes(rng.choice([20, 32, 48, 64, 66, 72]))
+    curves = rng.sample(gen.NAMED, rng.randint(2, 5))
+    batch = []
+    for curve in curves:
+      n = gen.model_curve(curve).n
+      d, k = rng.below(n - 1) + 1, rng.below(n - 1) + 1
+      pub = sigs.mulg(curve, d)
+      sig = sigs.sign_k(curve, d, pub, k, h)
+      if sig is None:
+        continue
+      ctx.distinct('cross', curve, h)
+      ctx.count('same_digest_on_several_curves')
+      _relation(ctx, curve, sig, d, k, 'digest shared with %d other curves' %
+                (len(curves) - 1))
+      batch.append((curve, d, k, sig))
+    if i % 5 == 0 and batch:
+      # through a check (the check converts every signature of the batch),
+      # then the relation again
+      msb.Check([type(s)().FromString(s.SerializeToString())
+                 for _, _, _, s in batch])
+      for curve, d, k, sig in reversed(batch):
+        _relation(ctx, curve, sig, d, k, 'after a mixed-curve Check() call')
+  try:
+    ctx.sample({'digest_len': len(h), 'curves': curves})
   except NameError:
     pass
 
@@ -251,6 +290,8 @@ def run(ctx, spec):
     run_model(ctx, spec)
   elif s.startswith('ossl'):
     run_ossl(ctx, spec)
+  elif s.startswith('cross'):
+    run_cross(ctx, spec)
   else:
     run_conv(ctx, spec)
 
@@ -259,5 +300,6 @@ def finalize(agg, tier):
   c = agg['counters']
   need = ['hashlen_vs_order:longer', 'hashlen_vs_order:equal',
           'hashlen_vs_order:shorter', 'openssl_signatures',
+          'same_digest_on_several_curves',
           'rfc6979_nonces_compared']
   return [], ['reach counter %s is zero' % k for k in need if not c.get(k)]
